@@ -1,7 +1,62 @@
 """Pins of the E1 storage engine (C01 C05 C10 C11 C18)."""
 
 
+import re
+
+
+def call_order(P, name, rel, header_regex, tokens):
+    """Pin the ORDER in which a function body performs some calls: `header_regex` finds the function, its body
+    is the brace-balanced block that follows, comments are dropped, and the table lists the code of every
+    occurrence of the `tokens` regexes (code -> regex) in source order."""
+    text = P.src(rel)
+    if text is None:
+        P.broken.append({"pin": name, "file": rel, "why": "file missing"}); return
+    m = re.search(header_regex, text, re.M | re.S)
+    if not m:
+        P.broken.append({"pin": name, "file": rel, "why": "function not found: " + header_regex}); return
+    i = text.find("{", m.end() - 1)
+    if i < 0:
+        P.broken.append({"pin": name, "file": rel, "why": "no body"}); return
+    depth, j = 0, i
+    while j < len(text):
+        if text[j] == "{": depth += 1
+        elif text[j] == "}":
+            depth -= 1
+            if depth == 0: break
+        j += 1
+    body = re.sub(r"//[^\n]*", lambda mm: " " * len(mm.group(0)), text[i:j + 1])
+    occ = []
+    for code, rx in tokens.items():
+        for mm in re.finditer(rx, body):
+            occ.append((mm.start(), code))
+    occ.sort()
+    P.items.append((name, "table", [c for _, c in occ], rel, text.count("\n", 0, i) + 1))
+
+
 def collect(P):
+    # ---- the real directory's durability primitives (MmapDirectory), as call orders (Storage/WriterStack.v) ----
+    # atomic_write: 1 write_all, 2 flush, 3 sync_data, 4 persist (rename onto the target)
+    call_order(P, "ATOMIC_WRITE_ORDER", "src/directory/mmap_directory/mod.rs", r"pub\(crate\) fn atomic_write\(path: &Path, content: &\[u8\]\) -> io::Result<\(\)> ",
+               {1: r"\.write_all\(", 2: r"\.flush\(\)", 3: r"\.sync_(data|all)\(\)", 4: r"\.persist\("})
+    # FooterProxy::terminate_ref: 1 append_footer, 2 terminate of the inner writer, 3 flush of the inner writer
+    call_order(P, "FOOTER_TERMINATE_ORDER", "src/directory/footer.rs", r"impl<W: TerminatingWrite> TerminatingWrite for FooterProxy<W> \{\s*fn terminate_ref\([^)]*\) -> io::Result<\(\)> ",
+               {1: r"append_footer\(", 2: r"\.terminate(_ref)?\(", 3: r"\.flush\(\)"})
+    # BufWriter<W>::terminate_ref (common): 3 flush of the buffer, 2 terminate of the inner writer
+    call_order(P, "BUFWRITER_TERMINATE_ORDER", "common/src/writer.rs", r"impl<W: TerminatingWrite> TerminatingWrite for BufWriter<W> \{\s*fn terminate_ref\([^)]*\) -> io::Result<\(\)> ",
+               {2: r"\.terminate(_ref)?\(", 3: r"\.flush\(\)"})
+    # SafeFileWriter::terminate_ref: 3 flush (a no-op on a File), 4 sync_data
+    call_order(P, "SAFEFILE_TERMINATE_ORDER", "src/directory/mmap_directory/mod.rs", r"impl TerminatingWrite for SafeFileWriter \{\s*fn terminate_ref\([^)]*\) -> io::Result<\(\)> ",
+               {3: r"\.flush\(\)", 4: r"\.sync_(data|all)\(\)"})
+    # try_acquire_lock (the default lock-file protocol): 1 open_write (create-new), 2 the guard is built, 3 flush
+    call_order(P, "LOCK_ACQUIRE_ORDER", "src/directory/directory.rs", r"fn try_acquire_lock\(\s*filepath: &Path,\s*directory: &dyn Directory,?\s*\) -> Result<DirectoryLock, TryAcquireLockError> ",
+               {1: r"\.open_write\(", 2: r"DirectoryLockGuard \{", 3: r"\.flush\(\)"})
+    # InnerIndexReader::reload holds a reader-wide lock from before it loads the segments until after it stored the searcher
+    P.flag("RELOAD_SERIALIZED", "src/reader/mod.rs",
+           r"fn reload\(&self\) -> crate::Result<\(\)> \{\s*let _\w+ = self\s*\.reload_lock\s*\.lock\(\).{0,700}?self\.searcher\.store\(searcher\);")
+    # MmapDirectory::sync_directory (unix): opens the root and fsyncs it
+    P.flag("SYNC_DIRECTORY_FSYNCS_ROOT", "src/directory/mmap_directory/mod.rs",
+           r"#\[cfg\(not\(windows\)\)\]\s*fn sync_directory\(&self\) -> Result<\(\), io::Error> \{.{0,400}?open\(&self\.inner\.root_path\)\?;\s*fd\.sync_(data|all)\(\)\?;")
+
     # IndexWriter::rollback: the replacement writer is built BEFORE the lock guard is taken out of self
     # (so that a failing rebuild cannot drop the guard) -- 1 when the source has that order.
     P.flag("ROLLBACK_BUILDS_BEFORE_TAKING_LOCK", "src/indexer/index_writer.rs",
